@@ -12,6 +12,7 @@
 #include <filesystem>
 #include <unistd.h>
 #include <algorithm>
+#include <set>
 
 using namespace sqf::runtime;
 
@@ -147,6 +148,8 @@ namespace sim
         auto old_err = std::cerr.rdbuf(err.rdbuf());
         int rc; std::string exc;
         fprintf(stderr, "@cli\n");
+        std::set<const sqf::runtime::runtime*> known;
+        for (auto& kv : g->by_rt) known.insert(kv.first);
         try
         {
             cli c;
@@ -157,6 +160,12 @@ namespace sim
             // this is what main_actual does
             exc = ex.what();
             rc = -1;
+        }
+        // the runtime the CLI owned is gone with it: forget it (the final snapshot must not look at freed memory)
+        for (auto it = g->by_rt.begin(); it != g->by_rt.end();)
+        {
+            if (!known.count(it->first)) { it->second->rt_raw = nullptr; it = g->by_rt.erase(it); }
+            else ++it;
         }
         std::cout.rdbuf(old_out);
         std::cerr.rdbuf(old_err);
